@@ -1,52 +1,89 @@
-"""Tie of Cisco/Routes.v (diff_croutes) to cisco.diffRoutes: generated route lists of one
-VRF for ASA and IOS; the commands printed by drc (add, delete, replacement in one
-transaction) must be exactly the commands of the Gallina model for the edit script of
-the library the tool calls (on the sorted route lines), and executing them on the
-routing table of the model must end in the target routes."""
+"""Tie of Cisco/Routes.v (diff_croutes_vrf) to cisco.diffRoutes: generated route lists for ASA (one routing
+table, one route per destination) and IOS (global table and VRFs, several routes per destination, VRFs
+for which the target has no route); the commands printed by drc (add, delete, replacement in one
+transaction) must be exactly the commands of the Gallina model for the edit script of the library the tool
+calls (on the sorted route lines), and executing them on the routing table of the model must end in the
+target routes plus the untouched routes of the VRFs the target does not mention."""
 from vlib import common as C
 from vlib import cisco as K
 from vlib import drcrun
 
-DSTS = ['10.%d.0.0' % k for k in range(10, 26)]
+NDST = 16
+DSTS = ['10.%d.0.0' % k for k in range(10, 10 + NDST)]
 HOPS = ['10.9.9.%d' % k for k in range(1, 8)]
+VRFS = [None, '013', '014']          # id of a route's destination in the model: index of the VRF * 1000 + index of the destination
 
 
-def line(ios, d, h):
-    return ('ip route %s 255.255.0.0 %s' % (DSTS[d], HOPS[h])) if ios else ('route inside %s 255.255.0.0 %s' % (DSTS[d], HOPS[h]))
+def line(ios, r):
+    v, d, h = r
+    if not ios:
+        return 'route inside %s 255.255.0.0 %s' % (DSTS[d], HOPS[h])
+    return 'ip route %s%s 255.255.0.0 %s' % (('vrf %s ' % VRFS[v]) if VRFS[v] else '', DSTS[d], HOPS[h])
 
 
-def gen_case(rng):
-    n = rng.randint(1, 7)
-    a = dict((d, rng.randrange(len(HOPS))) for d in rng.sample(range(len(DSTS)), n))
-    b = dict(a)
+def gen_case(rng, ios):
+    nv = rng.choice([1, 1, 2, 3]) if ios else 1
+    a = set()
+    for v in range(nv):
+        for d in rng.sample(range(NDST), rng.randint(0 if v else 1, 5)):
+            a.add((v, d, rng.randrange(len(HOPS))))
+            if ios and rng.random() < 0.25:
+                a.add((v, d, rng.randrange(len(HOPS))))          # a second next hop for the same destination
+    b = set(a)
+    # one route per destination in the target
+    seen = set()
+    for r in sorted(b):
+        if (r[0], r[1]) in seen:
+            b.discard(r)
+        seen.add((r[0], r[1]))
     for _ in range(rng.choice([1, 1, 2, 3, 4])):
         op = rng.random()
-        if op < 0.4 and b:
-            d = rng.choice(sorted(b))
-            b[d] = rng.choice([h for h in range(len(HOPS)) if h != b[d]])       # another next hop
-        elif op < 0.65:
-            free = [d for d in range(len(DSTS)) if d not in b]
+        bl = sorted(b)
+        if op < 0.4 and bl:
+            v, d, h = rng.choice(bl)
+            b.discard((v, d, h))
+            b.add((v, d, rng.choice([x for x in range(len(HOPS)) if x != h])))       # another next hop
+        elif op < 0.6:
+            v = rng.randrange(nv)
+            free = [d for d in range(NDST) if not any(r[0] == v and r[1] == d for r in b)]
             if free:
-                b[rng.choice(free)] = rng.randrange(len(HOPS))
-        elif len(b) > 1:
-            b.pop(rng.choice(sorted(b)))
-    return sorted(a.items()), sorted(b.items())
+                b.add((v, rng.choice(free), rng.randrange(len(HOPS))))
+        elif op < 0.8 and len(bl) > 1:
+            b.discard(rng.choice(bl))
+        elif ios and nv > 1:
+            v = rng.randrange(nv)                                                   # the target says nothing about one VRF
+            b = set(r for r in b if r[0] != v)
+            # ... and drops the route that stands directly in front of this VRF in the sorted list (one delete range over two VRFs)
+            prev = [r for r in sorted(a, key=lambda r: line(ios, r)) if r[0] < v]
+            if prev and rng.random() < 0.7:
+                b.discard(prev[-1])
+                b = set(r for r in b if not (r[0] == prev[-1][0] and r[1] == prev[-1][1]))
+    if not b:
+        b.add((0, 0, 0))
+    return sorted(a), sorted(b)
 
 
-def render(ios, routes, device):
-    ls = [line(ios, d, h) for d, h in routes]
+def render(ios, routes, device, vrfs=()):
+    ls = [line(ios, r) for r in routes]
     if ios:
-        return '\n'.join(ls) + '\n'
+        # every VRF of the device is known to the target through an interface, also those for which the target has no route
+        vr = sorted(set(VRFS[v] for v in vrfs if VRFS[v]))
+        intf = ''.join('interface Ethernet%d\n ip address 10.0.%d.1 255.255.255.0\n ip vrf forwarding %s\n' % (i + 1, i + 1, v) for i, v in enumerate(vr))
+        return ''.join('ip vrf %s\n' % v for v in vr) + intf + '\n'.join(ls) + '\n'
     return ('interface Ethernet0/0\n nameif inside\n' if device else '') + '\n'.join(ls) + '\n'
 
 
-def parse(ios, text, table):
+def cterm(r):
+    return '(%d, %d)' % (r[0] * 1000 + r[1], r[2])
+
+
+def parse(text, table):
     """one output line -> Coq term of Cisco.Routes.rcmd"""
-    def route(s):
-        s = s.strip()
-        if s not in table:
-            raise ValueError(s)
-        return '(%d, %d)' % table[s]
+    def route(s_):
+        s_ = s_.strip()
+        if s_ not in table:
+            raise ValueError(s_)
+        return cterm(table[s_])
     if '\\N ' in text:
         a, b = text.split('\\N ', 1)
         if not a.startswith('no '):
@@ -62,13 +99,13 @@ def check(ctx, n):
     bad, total = [], 0
     for ios in (False, True):
         model = 'IOS' if ios else 'ASA'
-        table = dict((line(ios, d, h), (d, h)) for d in range(len(DSTS)) for h in range(len(HOPS)))
-        cases = [gen_case(ctx.rng) for _ in range(n)]
-        jobs = [dict(model=model, device=render(ios, a, True), netspoc=render(ios, b, False)) for a, b in cases]
+        table = dict((line(ios, (v, d, h)), (v, d, h)) for v in range(len(VRFS) if ios else 1) for d in range(NDST) for h in range(len(HOPS)))
+        cases = [gen_case(ctx.rng, ios) for _ in range(n)]
+        jobs = [dict(model=model, device=render(ios, a, True, set(r[0] for r in a + b)), netspoc=render(ios, b, False, set(r[0] for r in a + b))) for a, b in cases]
         res = drcrun.run_many(ctx, jobs)
-        # the tool compares the route commands in sorted order
-        keyed = [(sorted(a, key=lambda r: line(ios, *r)), sorted(b, key=lambda r: line(ios, *r))) for a, b in cases]
-        rs = K.myers_ranges(ctx, [([line(ios, *r) for r in a], [line(ios, *r) for r in b]) for a, b in keyed])
+        # the tool compares the route commands in sorted order (equal masks here: by text)
+        keyed = [(sorted(a, key=lambda r: line(ios, r)), sorted(b, key=lambda r: line(ios, r))) for a, b in cases]
+        rs = K.myers_ranges(ctx, [([line(ios, r) for r in a], [line(ios, r) for r in b]) for a, b in keyed])
         items, used = [], []
         for i, ((a, b), ranges, r) in enumerate(zip(keyed, rs, res)):
             if r['rc'] != 0:
@@ -77,13 +114,13 @@ def check(ctx, n):
             m = K.ranges_to_script(ranges, a, b)
             lines_ = [l for l in r['out'].split('\n') if l.strip()]
             try:
-                impl = [parse(ios, l, table) for l in lines_]
+                impl = [parse(l, table) for l in lines_]
             except ValueError:
-                impl = ['(RDel (999, 999))']
-            items.append('(%s, %s)' % (C.clist(['(%s, (%d, %d))' % (t, e[0], e[1]) for t, e in m]), C.clist(impl)))
+                impl = ['(RDel (999999, 999))']
+            items.append('(%s, %s)' % (C.clist(['(%s, %s)' % (t, cterm(e)) for t, e in m]), C.clist(impl)))
             used.append(i)
         text = ('From Coq Require Import List.\nFrom NA Require Import Cisco.Routes Cisco.RoutesCheck.\nImport ListNotations.\n'
-                'Definition V := Eval vm_compute in route_verdicts %s.\nPrint V.\n' % C.clist(items))
+                'Definition V := Eval vm_compute in route_verdicts_vrf %s %s.\nPrint V.\n' % ('true' if ios else 'false', C.clist(items)))
         v = C.parse_verdict_list(ctx.coq_eval('routes_%s' % model, text), 2 * len(items))
         for k, i in enumerate(used):
             if v[2 * k] or v[2 * k + 1]:
